@@ -157,6 +157,7 @@ func sweepHook(prop string, keep func(o *Obligation) bool) propHook {
 	return func(c *checkCtx) {
 		c.useLedger = true
 		c.provedLedger = loadLedger(prop, "proved")
+		c.frontierLedger = loadLedger(prop, "frontier")
 		n := 0
 		for _, k := range c.e.sortedFuncKeys() {
 			if !inSweep(k) || c.funcs[k] {
@@ -229,6 +230,14 @@ func writeLedger(prop string, jobs []job) {
 	sort.Strings(names)
 	os.MkdirAll(filepath.Join(verifDir, "ledger"), 0o755)
 	os.WriteFile(filepath.Join(verifDir, "ledger", prop+".proved"), []byte(strings.Join(names, "\n")+"\n"), 0o644)
+	var fr []string
+	for _, j := range jobs {
+		if !j.o.Cover && !(j.o.Result == "unsat" && j.o.TimeS < 2.0) {
+			fr = append(fr, j.o.Name)
+		}
+	}
+	sort.Strings(fr)
+	os.WriteFile(filepath.Join(verifDir, "ledger", prop+".frontier"), []byte("# obligations of the sweep that are NOT proved on the unchanged tree (not claimed; see DESIGN)\n"+strings.Join(fr, "\n")+"\n"), 0o644)
 }
 
 func init() {
